@@ -35,6 +35,8 @@ R10.11 reader primitives at the exact end of input: bufferReadByte/F32/F64/Equal
 R10.12 the debug-name table is indexed only below its own length: every subscript of WasmNames.names is dominated by
        `index < length of the same table` (directly, through a copied local, or a local the length was stored from); indices kept
        in a record field are bounded where the field is stored
+R10.13 index spaces are split safely: every unsigned subtraction `index - <imports length / parameter count>` is dominated by a
+       comparison of the same operands establishing index >= count
 R10.5  name bytes: the hex escape of identifier bytes formats an unsigned byte with at most two digits in both twins
 """
 import math
@@ -1536,6 +1538,103 @@ def check_names_subscripts(chk, funcs):
     return n_sites
 
 
+# ---- R10.13 ---------------------------------------------------------------------------------------
+
+def check_index_space_split(chk, funcs):
+    """module index spaces are concatenations (imports first, then definitions; parameters first, then locals).  Every subtraction
+    `index - <number of imports / parameters>` is unsigned: it must be dominated by a comparison of the same two operands that
+    establishes index >= count (the false branch of `index < count`, or `index >= count`), otherwise an index into the first part
+    wraps around and addresses memory far outside the second array (a valid module may export an imported function)"""
+    from .. import cfg
+    n_sites = 0
+    for tu, f in funcs:
+        body = astdb.fn_body(f)
+        if body is None:
+            continue
+
+        def is_count(node, depth=0):
+            """the expression denotes the size of an imports container or a parameter count (through single-definition locals and
+            value-preserving wrappers)"""
+            n = strip(node, casts=True)
+            k = n.get('kind')
+            if k == 'MemberExpr':
+                if n.get('name') == 'parameterCount':
+                    return 'param'
+                if n.get('name') in ('length', 'count') and re.search(r'Wasm\w*Imports$', record_of(kids(n)[0], tu)):
+                    return True
+                return False
+            if k == 'CallExpr' and (astdb.callee_name(n) or '').startswith('assertSize') and astdb.call_args(n):
+                return is_count(astdb.call_args(n)[0], depth)
+            if k == 'DeclRefExpr' and n['referencedDecl'].get('kind') == 'VarDecl' and depth < 3:
+                vid = n['referencedDecl']['id']
+                defs = []
+                for x in walk(body):
+                    if x.get('kind') == 'VarDecl' and x.get('id') == vid and x.get('init'):
+                        defs.append([c for c in kids(x) if c.get('kind')][-1])
+                    elif x.get('kind') in ('BinaryOperator', 'CompoundAssignOperator', 'UnaryOperator') and \
+                            x.get('opcode') in ('=', '+=', '-=', '++', '--'):
+                        l = strip(kids(x)[0])
+                        if l.get('kind') == 'DeclRefExpr' and l['referencedDecl'].get('id') == vid:
+                            defs.append(None)
+                return len(defs) == 1 and defs[0] is not None and is_count(defs[0], depth + 1)
+            return False
+        subs = []
+        for n in walk(body):
+            if n.get('kind') in ('BinaryOperator', 'CompoundAssignOperator') and n.get('opcode') in ('-', '-='):
+                a_, b_ = kids(n)
+                kind_ = is_count(b_)
+                a0_ = strip(a_, casts=True)
+                if kind_ == 'param' and not (a0_.get('kind') == 'DeclRefExpr' and a0_['referencedDecl'].get('kind') == 'ParmVarDecl'):
+                    continue        # stack-height arithmetic of the call emitters (operands are on the stack by validity), not an index split
+                if kind_ and astdb.const_int(a0_, tu) is None:
+                    subs.append(n)
+        if not subs:
+            continue
+        ids = {id(n) for n in subs}
+
+        def txt(x):
+            return astdb.expr_text(strip(x, casts=True)).replace(' ', '')
+
+        def cond_facts(c, truth):
+            if c.get('kind') != 'BinaryOperator' or c.get('opcode') not in ('<', '>', '<=', '>='):
+                return ()
+            a_, b_ = [txt(x) for x in kids(c)]
+            op = c['opcode']
+            if not truth:
+                op = {'<': '>=', '>': '<=', '<=': '>', '>=': '<'}[op]
+            if op in ('>=', '>'):
+                return [('ge', a_, b_)]
+            return [('ge', b_, a_)]
+
+        def kills(nd):
+            tgt = None
+            if nd.get('kind') in ('BinaryOperator', 'CompoundAssignOperator') and (nd.get('opcode') == '=' or nd.get('kind') == 'CompoundAssignOperator'):
+                if id(nd) in ids:
+                    return None          # the subtraction itself is the target, evaluated before its own effect
+                tgt = txt(kids(nd)[0])
+            elif nd.get('kind') == 'UnaryOperator' and nd.get('opcode') in ('++', '--'):
+                tgt = txt(kids(nd)[0])
+            if tgt is None:
+                return None
+            return lambda fa: tgt in (fa[1], fa[2])
+        res = cfg.guarded_before(body, lambda nd: id(nd) in ids, cond_facts, kills)
+        for n in subs:
+            n_sites += 1
+            a_, b_ = [txt(x) for x in kids(n)]
+            ent = res.get(id(n))
+            facts = ent[1] if ent else None
+            site = '%s:%s-%s' % (f['name'], a_, b_)
+            if facts is None:
+                chk.ok('R10.13', site, 'unreachable')
+                continue
+            ok = any(fa[0] == 'ge' and fa[1] == a_ and fa[2] == b_ for fa in facts)
+            chk.expect(ok, 'R10.13', site,
+                       '%s computes %s - %s (unsigned) without having established %s >= %s on every path (known here: %r): for an index below '
+                       'the count the difference wraps around and the following array access lands far outside the array'
+                       % (f['name'], a_, b_, a_, b_, sorted(fa for fa in facts if fa[0] == 'ge')[:5]), '%s:index-space-split' % f['name'], astdb.loc_str(n))
+    return n_sites
+
+
 # ---- R10.11 ---------------------------------------------------------------------------------------
 
 def check_exact_end(chk, rule='R10.11'):
@@ -1688,6 +1787,8 @@ def run(chk):
     n_gr = check_growable(chk)
     n_ca = check_count_array_pairs(chk, funcs)
     n_ns = check_names_subscripts(chk, funcs)
+    n_is = check_index_space_split(chk, funcs)
+    chk.require(n_is >= 5, 'only %d index-space subtractions found (expected >= 5): anchor drifted' % n_is)
     chk.require(n_ns >= 5, 'only %d subscripts of a WasmNames table found (expected >= 5): anchor drifted' % n_ns)
     n_ee = check_exact_end(chk)
     chk.extra['sites'] = dict(sprintf=n_fmt, copies=n_cp, raw_buffer=n_buf, nullable_sinks=n_null,
